@@ -111,6 +111,15 @@ def handle : DrvHandler := fun op args =>
       let p ← progressOf? p
       let e ← toJ e
       some (exceptJson (progressClear e p))
+  | "C04.keys", [hs, v1, pfx, key, body] => do
+      let hs ← hashesOf? hs
+      let v1 ← jBool? v1
+      let pfx ← jStr? pfx
+      let key ← jStr? key
+      let body ← toJ body
+      some (match keysFor hs v1 pfx key body with
+        | .ok ks => ok (.arr (ks.map Json.str).toArray)
+        | .error e => err (errStr e))
   | "C04.consts", [] =>
       some (ok (Json.mkObj [("markers", .arr (knownMarkers.map Json.str).toArray),
                             ("prefixes", .arr (knownPrefixes.map Json.str).toArray),
